@@ -68,6 +68,15 @@ fn process_tcp_packet(
 
     let flow_key: FlowKey = (src_ip, dst_ip, src_port, dst_port);
 
+    // A SYN opens a new connection on this 4-tuple: whatever is still kept for an earlier one
+    // (an unfinished ClientHello, or the mark that one was already reported) does not apply to it
+    let flags = tcp.get_flags();
+    if flags & pnet::packet::tcp::TcpFlags::SYN != 0
+        && flags & pnet::packet::tcp::TcpFlags::ACK == 0
+    {
+        tcp_flows.remove(&flow_key);
+    }
+
     let payload = tcp.payload();
     if payload.is_empty() {
         return Ok(None);
@@ -120,7 +129,10 @@ fn process_tcp_packet(
                 ja4_original,
             };
 
-            tcp_flows.remove(&flow_key);
+            // The finished reader stays in the table until its entry expires and swallows the rest
+            // of the client's bytes: one result per connection. Removing the flow here let a second
+            // ClientHello on the same connection (what a client sends after a HelloRetryRequest)
+            // start a new flow and be reported again whenever it began on a segment boundary.
 
             Ok(Some(TlsClientOutput {
                 source: IpPort::new(src_ip, src_port),
